@@ -60,6 +60,11 @@ type Case struct {
 	Waiter    bool       `json:"waiter,omitempty"` // another goroutine of the host keeps calling ThreadPool().WaitAll() while the cascades run (Go route)
 	Dep       bool       `json:"dep,omitempty"`    // the first root action of cascade 0 returns only after the first root action of cascade 1 has started (needs >= 2 cascades, >= 2 workers; Go route)
 	ECAL      bool       `json:"ecal,omitempty"`   // route: the first cascade as ECAL sinks, waited for with addEventAndWait (fail-on-first-error is always on there)
+	// Resize: worker counts (all >= 1) which another goroutine of the host requests one after the other, without waiting,
+	// from the moment the ResizeAt-th task starts to run (Go route): the cascades run on a pool which is being shrunk and
+	// grown; a worker stays available all the time, so every wait still has to return with the complete report
+	Resize   []int `json:"resize,omitempty"`
+	ResizeAt int   `json:"resize_at,omitempty"`
 }
 
 func TestMain(m *testing.M) { hx.Main(m, "C02", rule) }
@@ -186,8 +191,48 @@ func runCase(c Case) (fail *hx.Failure) {
 		}
 	}
 	s := sched.Install(c.Plan)
+	resizeGo, resized := make(chan struct{}, 1), make(chan struct{})
+	if len(c.Resize) > 0 {
+		var begun int32
+		s.Observer = func(point string, args []interface{}) {
+			if point == "task.run.begin" && int(atomic.AddInt32(&begun, 1)) == c.ResizeAt {
+				select {
+				case resizeGo <- struct{}{}:
+				default:
+				}
+			}
+		}
+	}
 	proc.Start()
+	if len(c.Resize) > 0 {
+		go func() {
+			defer close(resized)
+			select {
+			case <-resizeGo:
+			case <-time.After(20 * time.Millisecond):
+			}
+			for _, n := range c.Resize {
+				if n < 1 {
+					n = 1
+				}
+				if c.Dep && n < 2 {
+					n = 2 // an action waiting for another cascade occupies a worker: "a worker is available" needs two
+				}
+				proc.ThreadPool().SetWorkerCount(n, false)
+				time.Sleep(150 * time.Microsecond)
+			}
+		}()
+	} else {
+		close(resized)
+	}
 	defer func() {
+		select {
+		case <-resized: // (a resize request must not overlap the teardown's JoinAll)
+		case <-time.After(20 * time.Second):
+			if fail == nil {
+				hx.Inconclusive("c02.resize-request-pending")
+			}
+		}
 		s.Uninstall()
 		fin := make(chan struct{})
 		go func() { proc.Finish(); close(fin) }()
@@ -623,6 +668,15 @@ func depthOf(c Cascade) (depth, fan int, fails, skips int) {
 func record(c Case, s *sched.Sched) {
 	nt := false
 	classes := []string{fmt.Sprintf("workers.%d", c.Workers), fmt.Sprintf("cascades.%d", len(c.Cascades)), fmt.Sprintf("failfirst.%v", c.FailFirst)}
+	if len(c.Resize) > 0 {
+		classes = append(classes, "pool.resized-while-the-cascades-run")
+		for _, n := range c.Resize {
+			if n < c.Workers {
+				classes = append(classes, "pool.shrunk-while-the-cascades-run")
+				break
+			}
+		}
+	}
 	for _, cs := range c.Cascades {
 		d, fan, fails, skips := depthOf(cs)
 		if d >= 2 && c.Workers >= 2 && (fails > 0 || skips > 0 || fan >= 2) {
@@ -739,6 +793,15 @@ func genCase(rt *rapid.T) Case {
 		c.Dep = true
 	}
 	c.Waiter = pick(3, "waiter") == 0
+	if c.Workers >= 2 && pick(5, "resize") == 0 {
+		// the pool is resized while the cascades run; tasks are stretched so that departing workers are busy for a while
+		for i, n := 0, 1+pick(3, "nresize"); i < n; i++ {
+			c.Resize = append(c.Resize, 1+pick(c.Workers+1, "rsz"))
+		}
+		c.ResizeAt = 1 + pick(6, "rszat")
+		c.Plan = append(c.Plan, sched.Rule{Point: "task.run.begin", Nth: 0, Action: "sleep", N: 50 + pick(200, "rszsleep")})
+		c.ECAL = false
+	}
 	if c.Dep && (len(c.Cascades) < 2 || c.Workers < 2) {
 		// make the dependency meaningful instead of dropping it
 		if c.Workers < 2 {
